@@ -133,7 +133,7 @@ impl Scenario for WalletScenario {
             ch.open("op");
             let tip = s.chain.tip();
             let base = s.cfg.base_height;
-            let k = ch.weighted("op", &[26, 16, 18, 10, 8, 5, 7, if faults_on { 10 } else { 0 }, 6, 4, if self.prop == "C01" { 8 } else { 2 }, if self.prop == "C06" { 8 } else { 4 }]);
+            let k = ch.weighted("op", &[26, 16, 18, 10, 8, 5, 7, if faults_on { 10 } else { 0 }, if self.prop == "C15" { 10 } else { 6 }, if self.prop == "C15" { 10 } else { 4 }, if self.prop == "C01" { 8 } else { 2 }, if self.prop == "C06" { 8 } else { 4 }]);
             match k {
                 // honest client step
                 0 => {
